@@ -53,6 +53,7 @@ type Contract struct {
 	NoReturn    bool
 	Keeps       []string
 	SkipInv     []string
+	NoKeeps     []string
 	PostEffects []*Effect // ghost assignments made at each call site after the call returned (may mention result)
 	LoopAll     []*Clause // invariants of every loop of the function (auto contracts)
 	Dispatch    bool
@@ -252,6 +253,11 @@ func ParseContractFile(path, pkgPath string) ([]*Contract, error) {
 			// with "assigns everything": these struct fields of objects that exist at call time are unchanged
 			for _, it := range splitTop(rest) {
 				cur.Keeps = append(cur.Keeps, strings.TrimSpace(it))
+			}
+		case "nokeeps":
+			// (auto contracts) this function does write the named default-kept field
+			for _, it := range splitTop(rest) {
+				cur.NoKeeps = append(cur.NoKeeps, strings.TrimSpace(it))
 			}
 		case "skipinvariant":
 			// (package initializer) this invariant is established elsewhere - by an init function run through
